@@ -7,7 +7,7 @@ import random
 from . import celx
 from .core import Ctx, read_dump, write_ndjson, trace_verdict, pmap, big, unbig
 
-INV = "INVARIANT DecodeAgrees\nINVARIANT FormIndependent\nCHECK_DEADLOCK FALSE\n"
+INV = "INVARIANT DecodeAgrees\nINVARIANT FormIndependent\nINVARIANT Homomorphic\nCHECK_DEADLOCK FALSE\n"
 INVN = "SPECIFICATION Spec\nINVARIANT IntDenotes\nINVARIANT SpellingIndependent\nINVARIANT FloatSign\nCHECK_DEADLOCK FALSE\n"
 
 
@@ -54,7 +54,7 @@ def sig_str(style, items, exp, got):
     kinds = "".join(sorted(set(it["k"] for it in items)))
     st = ("b" if style["b"] else "") + ("r" if style["r"] else "") + style["q"]
     nonascii = any(it["k"] == "c" and it["v"] > 127 for it in items)
-    return "literal %s items=%s%s -> %s" % (st, kinds, "+nonascii" if nonascii else "", got["t"] if got["t"] != exp["t"] else "other value")
+    return "literal %s items=%s%s%s -> %s" % (st, kinds, "+nonascii" if nonascii else "", " long" if len(exp.get("v", [])) > 400 else "", got["t"] if got["t"] != exp["t"] else "other value")
 
 
 def _replay(item):
@@ -144,6 +144,19 @@ def run(ctx: Ctx) -> int:
         if s["valid"]:
             nvalid += 1
             items.append(("str", {"style": s["style"], "items": s["items"]}, s_of(s["text"]), exp_of(s["exp"])))
+    # long literals (invariant Homomorphic): states whose items do not interact with their neighbours, repeated to 600 / 5000 characters
+    free = [it for it in items if it[1]["items"] and all(x["k"] != "c" or x["v"] not in (34, 39, 92, 10, 13) for x in it[1]["items"])]
+    nlong = 0
+    for j, (_, meta, text, exp) in enumerate(free[:: max(1, len(free) // (160 if q else 3000))]):
+        st = meta["style"]
+        ql = 3 if st["q"] in ("td", "ts") else 1
+        head = (1 if st["b"] else 0) + (1 if st["r"] else 0) + ql
+        body = text[head: len(text) - ql]
+        for target in ((600, 5000)[j % 2],):
+            n = -(-target // max(1, len(body)))
+            items.append(("str", {"style": st, "items": meta["items"], "repeated": n}, text[:head] + body * n + text[len(text) - ql:], {"t": exp["t"], "v": exp["v"] * n}))
+            nlong += 1
+    ctx.cov["long_literals"] = nlong
     r = ctx.tlc("MC_C07N", INVN, dump=True, name="number literals: spellings x boundary pool")
     for s in read_dump(r.dump):
         if s["kind"] in ("int", "float"):
